@@ -186,6 +186,54 @@ def live_scenario(run, e4, sc):
         srv.cleanup()
 
 
+def keepalive_reuse_scenario(run, e4, sc):
+    """A keep-alive connection whose request was in flight when another connection reached the limit: the response announced
+    keep-alive, so the next request the client sends on it must be answered (gevent / eventlet)."""
+    v = []
+    info = {}
+    wc = sc["class"]
+    srv = e4.Server("c18", worker_class=wc, workers=1, settings={"max_requests": 3, "keepalive": 5, "graceful_timeout": 5, "timeout": 30},
+                    bind="tcp")
+    try:
+        srv.start()
+        if not srv.wait_workers(1, 25) or not srv.wait_listening(5):
+            return v, "server did not boot", info
+        a = e4.connect(srv.addr, 5)
+        r1 = e4.request(srv.addr, "/pid", sock=a, close=False, timeout=5)
+        if r1["outcome"] != "ok":
+            return v, "warm-up failed: %s" % r1["outcome"], info
+        res = {}
+
+        def slow():
+            res["r2"] = e4.request(srv.addr, "/sleep/1.0", sock=a, close=False, timeout=10)
+        t = threading.Thread(target=slow, daemon=True)
+        t.start()
+        time.sleep(0.3)
+        rb = e4.request(srv.addr, "/pid", timeout=5)          # third request: reaches max_requests on another connection
+        t.join(12)
+        r2 = res.get("r2")
+        info["b"] = rb["outcome"]
+        if not r2 or r2["outcome"] != "ok":
+            v.append(("in-flight-request-lost-at-recycle", "request in flight when the limit was reached -> %s" % (r2 and r2["outcome"])))
+            return v, None, info
+        head = r2["data"].split(b"\r\n\r\n")[0].lower()
+        info["announced"] = "keep-alive" if b"connection: keep-alive" in head else "close"
+        if b"connection: keep-alive" in head:
+            r3 = e4.request(srv.addr, "/pid", sock=a, close=False, timeout=6)
+            info["next_on_same_connection"] = r3["outcome"]
+            if r3["outcome"] != "ok":
+                v.append(("keepalive-connection-dropped-at-recycle", "%s: the response to a request in flight at the limit announced "
+                          "keep-alive, the client's next request on that connection -> %s" % (wc, r3["outcome"])))
+            else:
+                run.count("live_keepalive_reuse_checks")
+        else:
+            run.count("live_keepalive_reuse_checks")
+        a.close()
+        return v, None, info
+    finally:
+        srv.cleanup()
+
+
 def live_scenarios(tier, seed):
     rng = rng_for(seed, "c18-live")
     out = []
@@ -196,10 +244,14 @@ def live_scenarios(tier, seed):
                         "concurrency": 1, "requests": 60})
             out.append({"class": wc, "workers": 2, "max_requests": rng.randint(2, 5), "jitter": rng.randint(0, 2),
                         "concurrency": 8, "requests": 240 if tier == "quick" else 400})
-        out.append({"class": rng.choice(["sync", "gthread", "gevent", "eventlet"]), "workers": 2, "max_requests": 0, "jitter": 0,
-                    "concurrency": 4, "requests": 120})
+        out.append({"class": rng.choice(["sync", "gthread", "gevent", "eventlet"]), "workers": 2, "max_requests": 0,
+                    "jitter": rng.choice([0, 3]), "concurrency": 4, "requests": 120})
+    for wc in ("gevent", "eventlet"):
+        out.append({"class": wc, "kind": "keepalive-reuse", "workers": 1, "max_requests": 3, "jitter": 0, "concurrency": 2, "requests": 4})
     for i, sc in enumerate(out):
         sc["idx"] = i
+        if sc.get("kind") == "keepalive-reuse":
+            continue
         if sc["class"] in ("gevent", "eventlet") and sc["max_requests"]:
             # these workers look at their own `alive` flag once per second: make the load span several ticks
             sc["pace"] = 0.07 if sc["concurrency"] == 1 else 0.13
@@ -222,10 +274,13 @@ def shard(sh):
         sc = sh["scenario"]
         reason = None
         for attempt in range(2):
-            v, reason, info = live_scenario(run, e4, sc)
+            if sc.get("kind") == "keepalive-reuse":
+                v, reason, info = keepalive_reuse_scenario(run, e4, sc)
+            else:
+                v, reason, info = live_scenario(run, e4, sc)
             if reason is None or v:
                 break
-        run.case(("live",) + tuple(sc[k] for k in ("class", "workers", "max_requests", "jitter", "concurrency")))
+        run.case(("live", sc.get("kind", "load")) + tuple(sc[k] for k in ("class", "workers", "max_requests", "jitter", "concurrency")))
         run.count("live_scenarios")
         run.count("live_class/" + sc["class"])
         for mech, summary in v:
@@ -240,13 +295,11 @@ def main(tier, seed):
     run = Run(PROP, tier, seed, "exploration", RULE)
     run.require("e2_cells", "e2_limit_reached", "e2_unlimited_1000_requests", "live_scenarios", "live_requests",
                 "live_recycling_observed", "live_unlimited_no_recycling", "live_class/sync", "live_class/gthread",
-                "live_class/gevent", "live_class/eventlet")
+                "live_class/gevent", "live_class/eventlet", "live_keepalive_reuse_checks")
     cells = []
     for kind in ("sync", "gthread", "async"):
         for m in range(0, 7):
             for j in range(0, 4):
-                if m == 0 and j:
-                    continue
                 for pc in ((1,) if kind == "sync" else (1, 2, 3)):
                     for rep in range(2 if tier == "quick" else 8):
                         cells.append((kind, m, j, pc))
@@ -270,7 +323,8 @@ def replay(path):
         v = e2_cell(run, e2, *c["cell"])
     else:
         from vlib import e4_live as e4
-        v, reason, info = live_scenario(run, e4, c["scenario"])
+        fn = keepalive_reuse_scenario if c["scenario"].get("kind") == "keepalive-reuse" else live_scenario
+        v, reason, info = fn(run, e4, c["scenario"])
         print("info:", info, "inconclusive:", reason)
     for mech, s in v:
         print("VIOLATION property=%s replay=%s\n  %s %s" % (PROP, path, mech, s))
